@@ -8,4 +8,4 @@ Require Import LV.PropTree.PropModel LV.PropTree.YamlModel.
 Extraction Language OCaml.
 Extraction "models_prop.ml"
   step init_state quote_key parse scan
-  yaml_export yaml_import yaml_rt_ideal.
+  yaml_export yaml_import import_document yaml_rt_ideal.
